@@ -346,6 +346,13 @@ func Eq(a, b *Term) *Term {
 		}
 	}
 	if a.sort == SString {
+		// decimal rendering of an integer compared with a constant: int_str(t) [++ suffix] = "123suffix"  <=>  t = 123
+		if r := intStrEq(a, b); r != nil {
+			return r
+		}
+		if r := intStrEq(b, a); r != nil {
+			return r
+		}
 		// concat with constant prefix vs constant: cheap refutation
 		if r := strEqRefute(a, b); r {
 			return TFalse
@@ -355,6 +362,33 @@ func Eq(a, b *Term) *Term {
 		a, b = b, a
 	}
 	return build("=", SBool, a, b)
+}
+
+// intStrEq rewrites int_str(t) ++ C = K (C, K constants) into an integer equation; nil if the shape does not match.
+func intStrEq(x, k *Term) *Term {
+	if !k.IsConst() {
+		return nil
+	}
+	var t *Term
+	suffix := ""
+	switch {
+	case x.op == "uf" && x.name == "int_str":
+		t = x.args[0]
+	case x.op == "str.++" && len(x.args) == 2 && x.args[0].op == "uf" && x.args[0].name == "int_str" && x.args[1].IsConst():
+		t = x.args[0].args[0]
+		suffix = x.args[1].s
+	default:
+		return nil
+	}
+	if !strings.HasSuffix(k.s, suffix) {
+		return TFalse
+	}
+	num := k.s[:len(k.s)-len(suffix)]
+	v, ok := new(big.Int).SetString(num, 10)
+	if !ok || v.String() != num {
+		return TFalse // not the canonical decimal rendering of any integer
+	}
+	return Eq(t, TInt(v))
 }
 
 // strEqRefute: returns true when a and b can be shown different syntactically.
